@@ -351,6 +351,22 @@ pub fn run(o: &Opts, drv: &mut Driver, rep: &mut Report) {
         let c = Case { root, cc: gen_cc(&mut rng, a), prefix: gen_prefix(&mut rng, b), path };
         one(drv, rep, "random", &c);
     }
+    // ---- related calls in a row on one thread: paths sharing prefixes under one (root, chain code), then the same path under
+    //      another chain code / root / prefix, then the first again — derivation is a function of its arguments only
+    for r in 0..(if thorough { 20 } else { 3 }) * o.scale {
+        let (root, root2) = (gen_root(&mut rng, r), gen_root(&mut rng, r + 1000));
+        let (cc, cc2) = (gen_cc(&mut rng, 7), gen_cc(&mut rng, 6));
+        let (pf, pf2) = (gen_prefix(&mut rng, r), gen_prefix(&mut rng, r + 1));
+        let p = gen_path(&mut rng, 6, 4);
+        let mut q = p.clone(); q[5] ^= 1;
+        let mut q2 = p.clone(); q2[0] ^= 1;
+        let mut seq: Vec<(ProjectivePoint, [u8; 32], Vec<u32>, bool)> = (0..=6).map(|k| (root, cc, p[..k].to_vec(), false)).collect();
+        seq.extend([(root, cc, q.clone(), false), (root, cc, q2.clone(), false), (root, cc2, p.clone(), false), (root2, cc, p.clone(), false), (root, cc, p.clone(), true), (root, cc, p.clone(), false), (root, cc, p[..3].to_vec(), false)]);
+        for (rt, c, path, other_prefix) in seq {
+            let c = Case { root: rt, cc: c, prefix: if other_prefix { pf2.clone() } else { pf.clone() }, path };
+            one(drv, rep, "related-calls", &c);
+        }
+    }
     // ---- single steps: derive_child_pubkey / get_finger_print incl. hardened indices and the identity parent
     let nchild = (if thorough { 3000 } else { 60 }) * o.scale;
     for k in 0..nchild {
